@@ -16,8 +16,28 @@ constexpr auto str_replace(CharT* f, CharT* l, CharT ch) -> void
 template <typename CharT>
 constexpr auto str_replace(CharT* f, CharT* l, CharT const* sf, CharT const* sl) -> void
 {
-    for (; (f != l) && (sf != sl); ++f, ++sf) {
-        *f = *sf;
+    auto const count = (l - f) < (sl - sf) ? (l - f) : (sl - sf);
+
+    // The replacement may be part of the string that is modified (s.replace(1, 2, s, 0, 2)). If the
+    // destination starts inside the source range, copy from the back so that no character is
+    // overwritten before it has been read. Only equality comparisons: usable in constant expressions.
+    auto overlap = false;
+    for (auto i = decltype(count){1}; i < count; ++i) {
+        if (sf + i == f) {
+            overlap = true;
+            break;
+        }
+    }
+
+    if (overlap) {
+        for (auto i = count; i > 0; --i) {
+            f[i - 1] = sf[i - 1];
+        }
+        return;
+    }
+
+    for (auto i = decltype(count){0}; i < count; ++i) {
+        f[i] = sf[i];
     }
 }
 } // namespace etl::detail
